@@ -60,6 +60,12 @@ func Run(sc Scenario, leak bool) Result {
 			r.Subscribe(st.Paused)
 		case "unsub":
 			r.Unsubscribe(r.Subs[st.I])
+		case "unsub2":
+			// redundant: the channel is no longer subscribed
+			r.UnsubscribeAgain(r.Subs[st.I])
+		case "unsubx":
+			// a channel that was never subscribed
+			r.UnsubscribeAgain(r.Foreign())
 		case "burst":
 			res.NMsgs += nmsgs(st.Pubs)
 			wait := r.Burst(st.Pubs)
@@ -241,18 +247,33 @@ func GenPhased(r *kit.Rand, id int, c Cfg, big bool) Scenario {
 	for i, n := 0, r.Range(0, 3); i < n; i++ {
 		add()
 	}
+	gone := []int{}
 	phases := r.Range(1, 4)
 	for ph := 0; ph < phases; ph++ {
-		switch r.Intn(5) {
+		switch r.Intn(7) {
 		case 0:
-			if nsub < 5 {
+			if nsub < 6 {
 				add()
 			}
 		case 1:
 			if len(live) > 0 {
 				k := r.Intn(len(live))
 				sc.Steps = append(sc.Steps, Step{Op: "unsub", I: live[k]})
+				gone = append(gone, live[k])
 				live = append(live[:k], live[k+1:]...)
+			}
+		case 2:
+			// redundant Unsubscribe calls (as many as there are live subscribers, or a few)
+			if len(gone) > 0 {
+				for j, n := 0, r.Range(1, len(live)+1); j < n; j++ {
+					sc.Steps = append(sc.Steps, Step{Op: "unsub2", I: gone[r.Intn(len(gone))]})
+				}
+			}
+		case 3:
+			// Unsubscribe of channels the broker never handed out
+			for j, n := 0, r.Range(1, len(live)+1); j < n && nsub < 8; j++ {
+				sc.Steps = append(sc.Steps, Step{Op: "unsubx"})
+				nsub++
 			}
 		}
 		maxEach := 6
@@ -287,5 +308,26 @@ func GenJoin(r *kit.Rand, id int, c Cfg) Scenario {
 	}
 	sc.Steps = append(sc.Steps, Step{Op: "joinburst", Pubs: g.pubs(r, 3, 25), Joins: r.Range(1, 3)})
 	sc.Steps = append(sc.Steps, Step{Op: "burst", Pubs: g.pubs(r, 2, 5)})
+	return sc
+}
+
+// GenRedundantUnsub: two subscribers, the leaver is unsubscribed twice (an
+// explicit call plus e.g. a deferred one), a foreign channel once, a new
+// subscriber joins; the keeper stays subscribed throughout and must get everything.
+func GenRedundantUnsub(id int, backend string, n int) Scenario {
+	sc := Scenario{ID: id, Kind: "redundant-unsub", Cfg: Cfg{Backend: backend, W: 1}}
+	g := &idgen{}
+	seq := func(k int) [][]int {
+		l := make([]int, k)
+		for i := range l {
+			g.next++
+			l[i] = g.next
+		}
+		return [][]int{l}
+	}
+	sc.Steps = []Step{{Op: "sub"}, {Op: "sub"}, {Op: "burst", Pubs: seq(2)},
+		{Op: "unsub", I: 1}, {Op: "unsub2", I: 1}, {Op: "burst", Pubs: seq(n)},
+		{Op: "unsubx"}, {Op: "unsub2", I: 1}, {Op: "burst", Pubs: seq(3)},
+		{Op: "sub"}, {Op: "burst", Pubs: seq(3)}}
 	return sc
 }
